@@ -7,6 +7,7 @@ from checklib import claims as C
 
 checks = []
 for pid in sorted(P.PROPS):
+    if pid not in C.CLAIMS: continue
     c = C.CLAIMS[pid]
     checks.append({
         'property_id': pid,
@@ -20,13 +21,13 @@ for pid in sorted(P.PROPS):
         'technique': c['technique'],
     })
 all_ids = ['C%02d' % i for i in range(1, 21)]
-na = [{'property_id': p, 'reason': C.NOT_YET.get(p, 'check not registered yet')} for p in all_ids if p not in P.PROPS]
+na = [{'property_id': p, 'reason': C.NOT_YET.get(p, 'not claimed yet: the correspondence check exists (./check %s) but no theorem file is registered for it in this commit' % p)} for p in all_ids if p not in C.CLAIMS]
 m = {
     'version': 1,
     'setup_cmd': './setup.sh',
     'hooks': {'guard': 'chess_verif', 'enable': 'RUSTFLAGS="--cfg chess_verif" (passed by ./check; no hook commit exists: every observable is reached through the public API, $OUT_DIR and source regexes)',
               'baseline_off_cmd': 'cd /repo && cargo test --workspace --no-fail-fast --offline', 'source_commits': [], 'add_only': True},
-    'engines': [{'name': 'rocq-proof+correspondence', 'path': '/verif/check', 'serves_properties': sorted(P.PROPS),
+    'engines': [{'name': 'rocq-proof+correspondence', 'path': '/verif/check', 'serves_properties': sorted(C.CLAIMS),
                  'kind_free_text': 'Coq 8.16 theorems over a hand-written model + regenerated tables (translator), model tied to /repo by differential correspondence through OCaml extraction'}],
     'checks': checks,
     'notes': 'See DESIGN.md. fix: commits in /repo are listed in KNOWN_FINDINGS.txt.',
